@@ -723,6 +723,14 @@ nni_aio_expire_loop(void *arg)
 
 		for (uint32_t i = 0; i < exp_idx; i++) {
 			aio = expires[i];
+			if ((!q->eq_stop) && (aio->a_expire >= now)) {
+				// While we were cancelling earlier members of
+				// the batch this one completed (and possibly
+				// was started again with a new deadline): it
+				// is no longer ours to expire.
+				aio->a_expiring = false;
+				continue;
+			}
 			if (q->eq_stop) {
 				rv          = NNG_ESTOPPED;
 				aio->a_stop = true;
